@@ -13,7 +13,10 @@ META = {"C11": {
             "sets of exactly one close group and one less) and random mixed-kind pairs. Typed and raw-key forms are compared for every kind, peers included (raw/raw and typed/raw). Every peer handed to "
             "calculate_get_closest_peers carries its own multiaddrs and every returned pair must be one of the entries handed in. convert_distance_to_u256 is also fed crafted real distances "
             "(0, 1, 2^k and 2^k-1 up to 2^255, 2^256-1, 10^k and 10^k-1, leading zero bytes) obtained by XOR-combining real address distances (GF(2) elimination on the driver's own digests). The fetcher's closeness decisions (which queued records are started first, range and fullness filters) are judged on ordering-stress runs of the real fetcher "
-            "(dozens of queued entries, the closest not startable) by the fetcher's trace specification against the same independent ranking; the store's range decisions are checked in its own area.",
+            "(dozens of queued entries, the closest not startable) by the fetcher's trace specification against the same independent ranking; the store's range decisions are checked in its own area. "
+            "The closeness decisions of the storage challenge (which chunk-type records a real node answers a GetChunkExistenceProof query with, which own chunks a real challenger node expects and "
+            "which it may pick as target) are judged on real nodes by the challenge trace specification (specs/challenge, clause C11_ChallengeClosest) against the same independent digests; the other clauses "
+            "of that specification (scoring, reporting, proofs, the client's quorum loop) are reported as SPEC-DEVIATION only.",
     "note": "trusted: TLC incl. CommunityModules Bitwise; sha2 crate; all addresses cannot be enumerated: members of each class are seeded random, near pairs are neighbours in digest order among 3000 random addresses (2-3 shared leading bytes)",
     "design_ref": "5 Area Distance"}}
 
@@ -39,6 +42,11 @@ def run(prop, tier, replay=None):
     v = Verdict(prop, tier, replaying=replay is not None)
     w = workdir(prop)
     thorough = tier == "thorough"
+    if replay and replay.get("area") == "challenge":
+        from areas.challenge_stage import challenge_stage
+        build(PACKAGES)
+        challenge_stage(v, w, False, replay)
+        return v.finish()
     if replay and replay.get("fetcher"):
         build(PACKAGES)
         scn = os.path.join(w, "scenarios.ndjson")
@@ -78,6 +86,9 @@ def run(prop, tier, replay=None):
     v.cov["rule"] = "a case is one real call with concrete addresses; distinct = distinct (call, digests, count, range); every call compares a real result with the specification's value"
     v.cov["samples"] = [{k: (e[k] if k != "peers" else len(e[k])) for k in e} for e in events[:1] + events[3:5]]
     v.cov["exhaustive"] = False
+    if not replay:
+        from areas.challenge_stage import challenge_stage
+        challenge_stage(v, w, thorough, None)
     v.assumptions = ["the digest of an address is SHA-256 of its address bytes (peer id bytes / 32-byte name / raw key bytes), computed with the sha2 crate; the 32-byte name of a register is "
                      "XorName::from_content(meta ++ owner key), of a scratchpad XorName::from_content(owner key) (xor_name crate), derived by the driver from the parts of the address",
                      "a peer set with a repeated peer is a list of entries: results are compared as digests; whether a list of CLOSE_GROUP_SIZE entries with fewer distinct peers should be reported as "
